@@ -12,7 +12,8 @@
 (***************************************************************************)
 EXTENDS Snow, NoiseNames, Json
 
-CONSTANTS PatSetB, BuilderDhs
+CONSTANTS PatSetB, BuilderDhs,
+          HfsB        \* TRUE: the scenarios of the hfs build (names with the hfs modifier and a KEM, resolver without a KEM)
 VARIABLE done
 
 sI == Atom("sI", 32)
@@ -21,8 +22,11 @@ sR == Atom("sR", 32)
 ModLists == { <<>>, <<"fallback">>, <<"psk1", "fallback">> }
             \cup { <<"psk" \o ToString(n)>> : n \in 0..9 }
 Lacks == {"none", "rng", "dh", "cipher", "hash"}
+ModListsH == { <<"hfs">>, <<"hfs", "psk0">>, <<"psk1", "hfs">>, <<"psk2", "hfs">>, <<"hfs", "psk9">>, <<"hfs", "fallback">> }
+LacksH == Lacks \cup {"kem"}
+IsHfs(mods) == \E i \in 1..Len(mods) : mods[i] = "hfs"
 
-PskIdxOf(mods) == { Dec(SubSeq(mods[i], 4, Len(mods[i]))) : i \in { j \in 1..Len(mods) : mods[j] # "fallback" } }
+PskIdxOf(mods) == { Dec(SubSeq(mods[i], 4, Len(mods[i]))) : i \in { j \in 1..Len(mods) : mods[j] \notin {"fallback", "hfs"} } }
 
 CfgB(role, hasS, hasRS, psks) ==
   [ s  |-> IF hasS THEN (IF role = "i" THEN sI ELSE sR) ELSE None,
@@ -35,7 +39,8 @@ CausesB(p, role, hasS, hasRS, mods, lack) ==
   \cup (IF ~hasRS /\ NeedsRemoteStatic(p, role) THEN {"B_NO_REMOTE_STATIC"} ELSE {})
   \cup (IF \E i \in 1..Len(mods) : mods[i] = "fallback" THEN {"B_MODIFIER"} ELSE {})
   \cup (IF \E n \in PskIdxOf(mods) : n > NumMsgs(p) THEN {"B_PSK_INDEX"} ELSE {})
-  \cup (IF lack # "none" THEN {"B_NO_" \o lack} ELSE {})
+  \cup (IF IsHfs(mods) /\ p \in OneWay THEN {"B_MODIFIER"} ELSE {})       \* hfs needs a second message for the encapsulation
+  \cup (IF lack \notin {"none", "kem"} \/ (lack = "kem" /\ IsHfs(mods)) THEN {"B_NO_" \o lack} ELSE {})
 
 KindsB(cz) ==
   UNION { CASE c = "B_NO_LOCAL_STATIC"  -> {"Prereq(LocalPrivateKey)"}
@@ -45,12 +50,13 @@ KindsB(cz) ==
             [] c = "B_NO_rng"           -> {"Init(GetRngImpl)"}
             [] c = "B_NO_dh"            -> {"Init(GetDhImpl)"}
             [] c = "B_NO_cipher"        -> {"Init(GetCipherImpl)"}
-            [] c = "B_NO_hash"          -> {"Init(GetHashImpl)"} : c \in cz }
+            [] c = "B_NO_hash"          -> {"Init(GetHashImpl)"}
+            [] c = "B_NO_kem"           -> {"Init(GetKemImpl)"} : c \in cz }
 
 Scenario(p, role, hasS, hasRS, mods, lack, dh) ==
   LET psks == { n \in PskIdxOf(mods) : n <= 4 }
-      pp == PP(p, psks, PubLen(dh), FALSE)
-      nm == NameOf(p, mods, dh, "ChaChaPoly", "SHA256")
+      pp == PPH(p, psks, PubLen(dh), FALSE, IsHfs(mods))
+      nm == NameOf(p, mods, IF IsHfs(mods) THEN dh \o "+Kyber1024" ELSE dh, "ChaChaPoly", "SHA256")
       ppn == [pp EXCEPT !.initpad = Len(nm) <= 32]
       cfg == CfgB(role, hasS, hasRS, psks)
       cz == CausesB(p, role, hasS, hasRS, mods, lack)
@@ -116,8 +122,9 @@ Init == done = FALSE /\ ep = <<>> /\ hist = <<>> /\ aeadLog = {}
 Next ==
   /\ ~done /\ done' = TRUE /\ UNCHANGED vars
   /\ \A p \in PatSetB : \A role \in {"i", "r"} : \A hasS \in BOOLEAN : \A hasRS \in BOOLEAN :
-       \A mods \in ModLists : \A lack \in Lacks : \A dh \in BuilderDhs :
-         PrintT(<<"SCN", ToJson(Scenario(p, role, hasS, hasRS, mods, lack, dh))>>)
+       \A mods \in (IF HfsB THEN ModListsH \cup {<<>>, <<"psk1">>} ELSE ModLists) : \A lack \in (IF HfsB THEN LacksH ELSE Lacks) :
+         \A dh \in BuilderDhs :
+           PrintT(<<"SCN", ToJson(Scenario(p, role, hasS, hasRS, mods, lack, dh))>>)
   /\ \A role \in {"i", "r"} : \A which \in {"s", "rs", "e"} : \A len \in KeyLens : \A dh \in {"25519", "P256"} :
        PrintT(<<"SCN", ToJson(KeyLenScenario(role, which, len, dh))>>)
   /\ \A loc \in PskLocs : \A len \in PskLens :
